@@ -98,7 +98,10 @@ def build(pid=None, timeout=3000):
             subprocess.run(['coq_makefile', '-f', '_CoqProject', '-o', 'Makefile'], cwd=COQ,
                            check=True, stdout=subprocess.DEVNULL, stderr=subprocess.DEVNULL)
         targets = ['theories/%s/Props.vo' % pid, 'theories/%s/Corr.vo' % pid] if pid else []
-        r = subprocess.run(['timeout', str(timeout), 'make', '-j16'] + targets, cwd=COQ,
+        # a runaway proof search must not hold the build lock (and the machine) for long: 24 GB address
+        # space per coqc, 25 minutes for the whole make
+        r = subprocess.run(['sh', '-c', 'ulimit -v 24000000; exec timeout %d make -j16 %s' % (
+                                min(timeout, 1500), ' '.join(targets))], cwd=COQ,
                            stdout=subprocess.PIPE, stderr=subprocess.STDOUT, text=True)
         return r.returncode == 0, r.stdout[-4000:]
     finally:
